@@ -25,16 +25,26 @@ THEOREMS = [
     "Mesa.Cont.C10_exp_agent_api",
     "Mesa.Cont.C10_legacy_neighbors_exact",
     "Mesa.Cont.C10_legacy_neighbors_mem",
+    "Mesa.Cont.C10_legacy_exclude_center",
+    "Mesa.Cont.C10_legacy_zero_distance_iff_same_point",
+    "Mesa.Cont.C10_legacy_negative_radius",
+    "Mesa.Cont.C10_legacy_move_foreign_agent",
     "Mesa.Cont.C10_exp_radius_exact",
     "Mesa.Cont.C10_exp_distances_exact",
     "Mesa.Cont.C10_exp_subset_queries_exact",
     "Mesa.Cont.C10_exp_neighbors_in_radius",
     "Mesa.Cont.C10_exp_k_nearest",
     "Mesa.Cont.C10_exp_nearest_neighbors",
+    "Mesa.Cont.C10_exp_nearest_neighbors_ties",
+    "Mesa.Cont.C10_exp_negative_radius",
     "Mesa.Cont.C10_exp_k_nearest_range",
     "Mesa.Cont.C10_argsortPart_spec",
     "Mesa.Cont.C10_torus_axis_is_nearest_image",
     "Mesa.Cont.C10_flat_axis_is_abs",
+    "Mesa.Cont.C10_torus_heading_cases",
+    "Mesa.Cont.C10_torus_heading_reaches_target",
+    "Mesa.Cont.C10_flat_heading_is_difference",
+    "Mesa.Cont.C10_axis_zero_distance_iff",
     "Mesa.Cont.C10_legacy_distance_symmetric",
     "Mesa.Cont.C10_legacy_heading_length",
     "Mesa.Cont.C10_exp_distance_symmetric",
@@ -52,7 +62,7 @@ COUNTS = {"quick": 6000, "thorough": 240000}
 TRUSTED = [
     "coordinates/radii are ints in units of 1/64 of small magnitude: every + - * % abs min <= the code performs on them is exact in binary64; IEEE rounding of other floats is not modelled",
     "math.sqrt / np.sqrt / scipy cdist(euclidean) return the correctly rounded square root of the exactly computed sum of squares (the harness inverts it exactly and re-checks sqrt(N)/64 == d); `distances <= radius` is then equivalent to the exact comparison of squares",
-    "numpy argpartition(d, kth): a permutation of the indices with d[res[i]] <= d[res[kth]] for i < kth and >= for i > kth (the driver runs a stable full sort, which satisfies it: theorem C10_argsortPart_spec); which of several agents at exactly the k-th distance is returned is left open",
+    "numpy argpartition(d, kth): a permutation of the indices with d[res[i]] <= d[res[kth]] for i < kth and >= for i > kth (the driver runs a stable full sort, which satisfies it: theorem C10_argsortPart_spec); which of several agents at exactly the k-th distance is returned is left open (get_nearest_neighbors with more than k+1 agents on the agent's own spot: k or k+1 distinct other agents at distance 0 are accepted, theorem C10_exp_nearest_neighbors_ties)",
     "numpy slicing/boolean masks/fancy indexing/vstack/overlapping slice assignment as documented; np.empty rows are modelled as an unspecified value that is never observed (a new agent is given a position before it is read)",
     "Python dict = insertion-ordered finite map (legacy _agent_to_index); agent objects are named by small ints",
 ]
@@ -65,7 +75,7 @@ ASSUMPTIONS = [
 RULE = ("random histories over both classes (50/50; 10% from the rejecting-call stream of C18): bounds with negative / non-unit origins and sizes 1/64 .. 15.6, torus on/off, "
         "experimental: 1-D .. 5-D (2-D and 3-D most often) and initial capacities {0,1,2,3,5,50,100}; 4-45 ops from place/new+set, move/set (12% per-axis out of bounds, "
         "coincident and boundary positions), `position += v` and item writes into the returned position (experimental), remove, every agent method on removed agent objects, pos, agents, radius / k-nearest (k in 0..n+1, often n) / neighbour queries incl. on the "
-        "empty space and right after a cached read + move, distances and heading/difference vectors; radii aimed at exact agent distances; "
+        "empty space and right after a cached read + move, distances and heading/difference vectors (30% of the toroidal ones exactly half the size apart: the tie of the heading rule); radii aimed at exact agent distances; "
         "non-trivial = >= 2 agents in the space at some point, a mutation after the first query and a query answer naming an agent; "
         "distinct = distinct op-line sequences (sha1)")
 HEADER_LINES = 1
@@ -160,6 +170,12 @@ def tags(sc, obs):
             yield "branch:nn-k-equals-n-1"
         if "*" in o or o.endswith("ambiguous"):
             yield "branch:knn-tie-at-boundary"
+        if w0[3] == "1" and ((w[0] == "heading" and o.startswith("ok h=")) or (w[0] == "diffs" and o.startswith("ok res="))):
+            b = list(map(int, w0[4:8] if kind == "legacy" else w0[5:]))
+            sizes = [b[2 * i + 1] - b[2 * i] for i in range(len(b) // 2)]
+            vecs = [o[5:]] if w[0] == "heading" else [x.split(":")[1] for x in o[7:].split(",") if x]
+            if any(2 * abs(int(c)) == sizes[i] for v in vecs for i, c in enumerate(v.replace(";", ",").split(","))):
+                yield "branch:heading-half-size-tie"
 
 
 if __name__ == "__main__":
